@@ -71,13 +71,14 @@ class Ctx:
     def layer(path):
         return path.lstrip("<").split("::")[0]
 
-    def flat_with(self, body, kept, tag):
-        """Flattened body under a caller-supplied policy kept(path) -> bool (True: leave the call in place)."""
+    def flat_with(self, body, kept, tag, normalise=True):
+        """Flattened body under a caller-supplied policy kept(path) -> bool (True: leave the call in place).
+        normalise=False: helpers are inlined but combinators / `?` are left as written."""
         if body is None:
             return None
-        key = (body.path, "policy", tag)
+        key = (body.path, "policy", tag, normalise)
         if key not in self._flat:
-            fl = _flat.Flattener(self.facts, keep=kept)
+            fl = _flat.Flattener(self.facts, keep=kept, expand=normalise, thread=normalise)
             fn = fl.flatten(body.path)
             bad = _flat.validate(fn)
             if bad:
